@@ -13,6 +13,8 @@
 (*   "subvotes"  LastCommit reduced to a subset that still holds +2/3 of the set in force      *)
 (*   "fewvotes"  LastCommit that does not hold +2/3 of the set in force (votes removed, only    *)
 (*               the quorum of the OTHER validator-set epoch, bad signature, other block id)   *)
+(*   "boundaryvotes" LastCommit holding EXACTLY the largest power that is not more than 2/3 of the   *)
+(*               set in force (3 of 5, 5 of 8: total power = 2 mod 3, where n/3*2+1 and n*2/3+1 differ)*)
 (*   "voteidx"   LastCommit whose votes carry a wrong validator index/address (signatures intact)*)
 (*   "nilpart"   LastCommit missing (nil)                                                     *)
 (*   "nilhdr"    no block / no header in the response                                          *)
@@ -33,6 +35,7 @@ CONSTANTS
   Classes,     \* classes a malicious peer may serve
   MaxTamper,   \* bound on non-"good" deliveries
   MaxEnv,      \* bound on environment actions
+  Total,       \* total voting power of the set in force (the driver's chains use 5 and 8: both = 2 mod 3)
   Urgent,      \* see above
   Guarded      \* TRUE: VerifyCommit refuses a nil commit (843327f) and votes that do not carry their slot's validator
                \*       index/address (1551b96); FALSE: the behaviour before these commits
@@ -63,13 +66,21 @@ Free == [p |-> None, b |-> None]
 
 BodyOK(c) == c = "good"
 
-\* does the LastCommit of a block of class c justify the (true) previous block?  "crash" = VerifyCommit panics
-Justifies(c) ==
-  CASE c \in {"good", "body", "subvotes"} -> "yes"
-    [] c = "fewvotes"                     -> "no"
-    [] c = "voteidx"                      -> IF Guarded THEN "no" ELSE "yes"
-    [] c = "nilpart"                      -> IF Guarded THEN "no" ELSE "crash"   \* VerifyCommit(nil) before 843327f
-    [] OTHER                              -> "no"
+Quorum   == (2 * Total) \div 3 + 1        \* smallest power that is more than 2/3
+Boundary == Quorum - 1                    \* largest power that is NOT more than 2/3
+
+\* voting power of the valid precommits, for exactly the previous (true) block, that VerifyCommit can count in the
+\* LastCommit of a block of class c; -1 = VerifyCommit panics (nil commit before 843327f)
+Tallied(c) ==
+  CASE c \in {"good", "body", "subvotes"} -> Quorum         \* a minimal +2/3 commit (canonical or another one)
+    [] c = "boundaryvotes"                -> Boundary
+    [] c = "fewvotes"                     -> Boundary - 1     \* at most (votes removed / other epoch's quorum / bad signature ...)
+    [] c = "voteidx"                      -> IF Guarded THEN 0 ELSE Total   \* the whole commit is refused (1551b96)
+    [] c = "nilpart"                      -> IF Guarded THEN 0 ELSE -1
+    [] OTHER                              -> 0
+
+\* does the LastCommit of a block of class c justify the (true) previous block?  the property's inequality
+Justifies(c) == IF Tallied(c) < 0 THEN "crash" ELSE IF 3 * Tallied(c) > 2 * Total THEN "yes" ELSE "no"
 
 \* the saved SeenCommit is usable by reconstructLastCommit at the switch
 SeenUsable(c) == c # "voteidx"
@@ -234,7 +245,7 @@ NeverApplyUnjustified ==
   [][ applied' # applied =>
         /\ last'.op = "Sync" /\ last'.r = "apply"
         /\ BodyOK(req[height].b)
-        /\ req[height + 1].b \in {"good", "body", "subvotes"} \cup (IF Guarded THEN {} ELSE {"voteidx"}) ]_vars
+        /\ 3 * Tallied(req[height + 1].b) > 2 * Total ]_vars
 
 \* whatever the peers serve, no goroutine of the node dies
 NoCrash == ~crashed
